@@ -20,7 +20,7 @@ NT_RULE = ('id collections of 0-60 ids from 1-3 prefixes (plain, containing the 
 REQUIRED_ORACLES = ['I1', 'I2', 'I3', 'I4']
 REQUIRED_CLASSES = ['ids:empty', 'ids:multi_prefix', 'ids:gap', 'ids:duplicate', 'ids:prefix_has_delim',
                     'ids:empty_prefix', 'ids:leading_delim', 'ids:pad_other', 'ids:as_id_attr', 'ids:as_name_attr',
-                    'ids:bad_suffix', 'ids:non_str', 'ids:numbering_shared_pool', 'ids:numbering_suffix_in_prefix', 'wrap:single_line', 'wrap:multi_line', 'wrap:long_token',
+                    'ids:bad_suffix', 'ids:non_str', 'ids:numbering_shared_pool', 'ids:numbering_suffix_in_prefix', 'wrap:single_line', 'wrap:multi_line', 'wrap:long_token', 'wrap:whitespace_char_in_token:multi_line',
                     'wrap:dict', 'wrap:list', 'wrap:str', 'wrap:tuple']
 REQUIRED_PROBES = ['_get_omkm_range', 'obj_to_cti']
 ASSUMPTIONS = ['range notation "<p><a> to <p><b>" denotes every id <p><k>, a<=k<=b, written with the width of '
@@ -160,7 +160,22 @@ def generate(rng, tier):
     else:
         toks = [''.join(rng.choice(chars) for _ in range(rng.choice([1, 2, 5, 8, 12, 29, 30])))
                 for _ in range(nt)]
+        if nt and rng.random() < 0.25:
+            # tokens are delimited by the ASCII blank only: a tab, a no-break / thin / ideographic space or a
+            # form feed inside a token (a name pasted from a document) belongs to the token
+            for j in rng.sample(range(nt), min(nt, rng.randint(1, 3))):
+                t = toks[j]
+                k = rng.randrange(len(t) + 1)
+                toks[j] = (t[:k] + rng.choice(WS_IN_TOKEN) + t[k:])[:30]
     return {'kind': 'wrap', 'form': form, 'tokens': toks, 'line_len': line_len, 'max_line_len': max_line_len}
+
+
+WS_IN_TOKEN = ['\t', '\xa0', '\u2009', '\u3000', '\x0c']
+
+
+def _split(text):
+    """tokens of a CTI string body: separated by ASCII blanks and line breaks only"""
+    return [t for t in re.split('[ \n]+', text) if t]
 
 
 def install_probes(pr, ctx):
@@ -345,7 +360,9 @@ def _wrap(spec, ctx):
                          dict(mech, what='quotes'), out=out[:200]):
             return
         body = out[1:-1]
-    got = body.split()
+    got = _split(body)
+    if any(w in t for t in toks for w in WS_IN_TOKEN):
+        ctx.cls('wrap:whitespace_char_in_token' + (':multi_line' if multi else ''))
     ctx.check('I4', got == toks, dict(mech, what='tokens', lines='multi' if multi else 'single'),
               got=got[:12], want=toks[:12], n_got=len(got), n_want=len(toks))
     if len(lines) >= 2:
@@ -360,7 +377,7 @@ def _wrap(spec, ctx):
             content = line.strip()
             if k == 0 and content.startswith('"""'):
                 content = content[3:]
-            n_tok = len(content.split())
+            n_tok = len(_split(content))
             ctx.check('I4', n_tok <= 1, dict(mech, what='width', line='first' if k == 0 else 'continuation'),
                       line=line, limit=limit)
         else:
